@@ -231,6 +231,24 @@ func (c *checker) checkString(s string, want int64, overflow bool, valid bool, w
 	})
 }
 
+// intOrError: ParseInt (and an int schema carrying the units) either rejects the string or returns exactly want.
+func (c *checker) intOrError(s string, want int64, what string) {
+	c.res.Evaluations++
+	r := replay{Op: "parse", Str: s}
+	c.guard("ParseInt("+s+")", r, func() {
+		if got, err := c.u.ParseInt(s); err == nil && got != want {
+			c.fail("ParseInt returns a wrong number", fmt.Sprintf("ParseInt(%q) = %d, expected %d or an error (%s)", s, got, want, what), r)
+		}
+		if c.intSchema == nil {
+			c.intSchema = schema.NewIntSchema(nil, nil, c.u)
+			c.floatSchema = schema.NewFloatSchema(nil, nil, c.u)
+		}
+		if v, err := c.intSchema.Unserialize(s); err == nil && v != any(want) {
+			c.fail("an int schema with units returns a wrong number", fmt.Sprintf("IntSchema.Unserialize(%q) = %v, expected %d or an error (%s)", s, v, want, what), r)
+		}
+	})
+}
+
 // throughSchemas: IntSchema / FloatSchema with these units, given the string, must return what the units' own parser
 // returns (same verdict, same number).
 func (c *checker) throughSchemas(s string, got int64, err error, gotF float64, errF error, r replay) {
@@ -382,6 +400,17 @@ func (c *checker) strings() {
 	c.checkString("1 5 "+b[1], 0, false, false, "count split by a space")
 	c.checkString("1\t0"+b[1], 0, false, false, "count split by a tab")
 	c.checkString("5"+b[1]+" 5", 0, false, false, "trailing count without a unit")
+	// a base count written with an all-zero fraction ("3.0"): whether an integer parser takes it is not pinned down, but
+	// if it does the number has to be exact - also where the total is beyond what a float64 holds exactly
+	c.intOrError("3.0"+b[1], 3, "integral count written with a fraction")
+	if len(ms) > 0 && ms[0] > 1 && ms[0] < math.MaxInt64/3 {
+		big := ms[0]
+		count := int64(1)<<53/big + 1
+		if count > 0 && count < math.MaxInt64/big-1 {
+			c.intOrError(fmt.Sprintf("%d%s1.0%s", count, d.Mults[big][1], b[1]), count*big+1, "total above 2^53 with the base count written as 1.0")
+			c.intOrError(fmt.Sprintf("%d%s3.000%s", count, d.Mults[big][1], b[1]), count*big+3, "total above 2^53 with the base count written as 3.000")
+		}
+	}
 	if len(ms) > 1 {
 		big, small := ms[0], ms[len(ms)-2]
 		c.checkString(fmt.Sprintf("5%s5%s", b[1], d.Mults[big][1]), 0, false, false, "wrong order (smaller unit first)")
@@ -564,7 +593,7 @@ func main() {
 			}
 			return res.Findings
 		},
-		Rule: "5 built-in unit sets + 18 generated definitions (multipliers over {2,10,60,1000}; names that are prefixes of each other; names with regexp metacharacters; names with a space inside) x {every integer in [0,200000] (generated definitions: [0,20000] in the quick tier; built-in sets: [0,2000000] in the thorough tier), powers of ten +-1 up to 10^18, multiplier boundaries, 2^63-1; floats k/8 for k<=4000, k*10^e and k*10^-e down to 10^-12; every well-formed string of 1-3 strictly descending components with counts from {0,1,9,10,59,60,61,100} in 4 name/spacing variants; 14 near misses incl. 64-bit overflow; every string also through IntSchema / FloatSchema carrying the units (must agree with the units' parser); bare digit strings with leading zeros, base prefixes and separators}; every case distinct. First use: for every definition, every pair over {ParseInt, FormatShortInt, FormatLongInt, ParseFloat} issued by two threads on one fresh definition under the cooperative scheduler (sync shim + access events on schema/), all schedules with <= 2 preemptions: vector-clock race scan and results equal to a single caller's",
+		Rule: "5 built-in unit sets + 18 generated definitions (multipliers over {2,10,60,1000}; names that are prefixes of each other; names with regexp metacharacters; names with a space inside) x {every integer in [0,200000] (generated definitions: [0,20000] in the quick tier; built-in sets: [0,2000000] in the thorough tier), powers of ten +-1 up to 10^18, multiplier boundaries, 2^63-1; floats k/8 for k<=4000, k*10^e and k*10^-e down to 10^-12; every well-formed string of 1-3 strictly descending components with counts from {0,1,9,10,59,60,61,100} in 4 name/spacing variants; 14 near misses incl. 64-bit overflow; integral counts written with a fraction (total above 2^53): an error or the exact number; every string also through IntSchema / FloatSchema carrying the units (must agree with the units' parser); bare digit strings with leading zeros, base prefixes and separators}; every case distinct. First use: for every definition, every pair over {ParseInt, FormatShortInt, FormatLongInt, ParseFloat} issued by two threads on one fresh definition under the cooperative scheduler (sync shim + access events on schema/), all schedules with <= 2 preemptions: vector-clock race scan and results equal to a single caller's",
 		Assumptions: []string{
 			"ambiguous inputs are outside the alphabet: bare numbers without a unit name, decimal counts, negative quantities",
 			"float tolerance 1e-6 absolute + 1e-9 relative (the formatter prints 6 decimals)",
